@@ -336,7 +336,19 @@ class ForkExec:
         os.makedirs(self.root)
 
     def publish(self, project, path, crash=None):
-        return W.in_child(_c_publish, self.root, project, path, root=self.root, crash=crash)
+        if not os.path.isfile(path):
+            return W.in_child(_c_publish, self.root, project, path, root=self.root, crash=crash)
+        # a file package is published from the publisher's build artefact, which is rebuilt *in place* afterwards: nothing
+        # already stored in the registry may change with it
+        self.artefacts = getattr(self, 'artefacts', 0) + 1
+        artefact = os.path.join(self.base, f'artefact-{self.artefacts}.4ml')
+        shutil.copyfile(path, artefact)
+        try:
+            return W.in_child(_c_publish, self.root, project, artefact, root=self.root, crash=crash)
+        finally:
+            with open(artefact, 'r+b') as fh:
+                fh.write(b'\0' * 64)
+                fh.truncate()
 
     def train(self, project, release, states, tagspec, crash=None):
         return W.in_child(_c_train, self.root, project, release, states, tagspec, root=self.root, crash=crash)
